@@ -1,4 +1,4 @@
-(* C28 — proofs about Model/ReaderSplit.v (reader as of /repo e4074d6).
+(* C28 — proofs about Model/ReaderSplit.v (reader as of /repo afaa1e5).
 
    Main results
      decode_stream_all    : for EVERY script that is a reader (io.EOF on the last
@@ -321,7 +321,7 @@ Section Nrd.
         * intros _. eexists. split; [reflexivity|]. unfold wf_st, same_regs; simpl. auto 10.
         * intro Hne. congruence.
       + split; [intro E; rewrite Hd in E; discriminate|]. intros _.
-        exists (x :: bs), (mkst s' e (s_b0 s) (s_cnt s + lenN (x :: bs)) (s_out s)).
+        exists (x :: bs), (mkst s' e (s_b0 s) (s_blen s) (s_cnt s + lenN (x :: bs)) (s_out s)).
         unfold wf_st, same_regs; simpl. repeat split; auto; try discriminate;
           try (destruct (maxdoc <? s_cnt s + lenN (x :: bs)); reflexivity).
   Qed.
@@ -507,10 +507,144 @@ Section SimPrims.
         unfold Rst. rewrite D1, D2, B1, B2, O1, O2, C1, C2, H3, H4, H5, H6. auto 10.
       + destruct F1 as (t1 & E1 & O1), F2 as (t2 & E2 & O2). rewrite E1, E2. simpl. congruence.
   Qed.
+  (* ---- readIntoBuffer with the growing buffer ---- *)
+
+  Lemma rib_loop_S f count filled blen acc s :
+    rib_loop maxdoc (S f) count filled blen acc s =
+    if count <=? filled then Ret (acc, blen) s
+    else
+      let blen' := if filled =? blen then grow_buffer blen count else blen in
+      match nrd maxdoc (N.min blen' count - filled) s with
+      | Ret r s' =>
+          (if snd r then fail
+           else rib_loop maxdoc f count (filled + lenN (fst r)) blen' (acc ++ fst r)) s'
+      | Fail s' => Fail s'
+      | Stuck => Stuck
+      end.
+  Proof. cbn [rib_loop]. destruct (count <=? filled); reflexivity. Qed.
+
+  (* the capacity of each Read is at least 1 and stays inside the buffer and the field *)
+  Lemma rib_cap count filled blen :
+    filled < count -> filled <= blen ->
+    let blen' := if filled =? blen then grow_buffer blen count else blen in
+    1 <= N.min blen' count - filled /\ filled + (N.min blen' count - filled) <= blen' /\
+    filled + (N.min blen' count - filled) <= count.
+  Proof.
+    intros H1 H2. unfold grow_buffer, start_buffer. destruct (N.eqb_spec filled blen); cbv zeta; lia.
+  Qed.
+
+  (* in terms of the data and the byte budget alone: the buffer length does not matter *)
+  Lemma rib_spec fuel : forall count filled blen acc s,
+    wf_st s -> (length (src_data (s_src s)) < fuel)%nat ->
+    (count <= filled -> rib_loop maxdoc fuel count filled blen acc s = Ret (acc, blen) s) /\
+    (filled < count -> filled <= blen ->
+       if (count - filled <=? lenN (src_data (s_src s))) && (s_cnt s + (count - filled) <=? maxdoc) then
+         exists s' bl,
+           rib_loop maxdoc fuel count filled blen acc s
+             = Ret (acc ++ takeN (count - filled) (src_data (s_src s)), bl) s' /\
+           wf_st s' /\ src_data (s_src s') = dropN (count - filled) (src_data (s_src s)) /\
+           same_regs s s' /\ s_cnt s' = s_cnt s + (count - filled)
+       else exists s', rib_loop maxdoc fuel count filled blen acc s = Fail s' /\ s_out s' = s_out s).
+  Proof.
+    induction fuel as [|f IH]; intros count filled blen acc s Hw Hf; [lia|].
+    rewrite rib_loop_S. split.
+    - intro H. destruct (N.leb_spec count filled); [reflexivity | lia].
+    - intros Hlt Hbl. destruct (N.leb_spec count filled); [lia|].
+      destruct (rib_cap count filled blen Hlt Hbl) as (C1 & C2 & C3). cbv zeta.
+      set (blen' := if filled =? blen then grow_buffer blen count else blen) in *.
+      set (cap := N.min blen' count - filled) in *.
+      destruct (nrd_spec maxdoc cap s C1 Hw) as [Nil Dat].
+      destruct (src_data (s_src s)) as [|x d] eqn:E.
+      + destruct (Nil eq_refl) as (t & -> & V & T & [B O] & C). cbn [snd]. simpl lenN.
+        destruct (N.leb_spec (count - filled) 0); [lia|]. simpl. exists t. split; [reflexivity | exact O].
+      + destruct (Dat ltac:(discriminate)) as (bs & t & Z & L & A & V & [B O] & C & ->).
+        assert (Hlen : (length (src_data (s_src t)) < f)%nat).
+        { apply (f_equal (@length _)) in A. rewrite app_length in A. simpl in *.
+          destruct bs; [congruence|]. simpl in A. lia. }
+        rewrite A, lenN_app.
+        destruct (N.ltb_spec maxdoc (s_cnt s + lenN bs)) as [Hover|Hfit].
+        * replace ((count - filled <=? lenN bs + lenN (src_data (s_src t))) && (s_cnt s + (count - filled) <=? maxdoc))
+            with false by (symmetry; apply andb_false_iff; right; apply N.leb_gt; lia).
+          exists t. split; [reflexivity | exact O].
+        * cbn [fst snd]. destruct (IH count (filled + lenN bs) blen' (acc ++ bs) t V Hlen) as [IH1 IH2].
+          destruct (N.eq_dec (filled + lenN bs) count) as [Heq|Hne].
+          -- (* the field is complete *)
+             rewrite (IH1 ltac:(lia)).
+             assert (Hn : count - filled = lenN bs) by lia. rewrite Hn.
+             destruct (N.leb_spec (lenN bs) (lenN bs + lenN (src_data (s_src t)))); [|lia].
+             destruct (N.leb_spec (s_cnt s + lenN bs) maxdoc); [|lia]. simpl.
+             exists t, blen'. rewrite takeN_app_exact, dropN_app_exact. unfold same_regs. auto 10.
+          -- specialize (IH2 ltac:(lia) ltac:(lia)). rewrite C in IH2.
+             replace ((count - filled <=? lenN bs + lenN (src_data (s_src t))) && (s_cnt s + (count - filled) <=? maxdoc))
+               with ((count - (filled + lenN bs) <=? lenN (src_data (s_src t))) &&
+                     (s_cnt s + lenN bs + (count - (filled + lenN bs)) <=? maxdoc)).
+             2:{ f_equal.
+                 - destruct (N.leb_spec (count - (filled + lenN bs)) (lenN (src_data (s_src t)))),
+                            (N.leb_spec (count - filled) (lenN bs + lenN (src_data (s_src t)))); try reflexivity; lia.
+                 - f_equal. lia. }
+             destruct ((count - (filled + lenN bs) <=? lenN (src_data (s_src t))) &&
+                       (s_cnt s + lenN bs + (count - (filled + lenN bs)) <=? maxdoc)).
+             ++ destruct IH2 as (t' & bl & -> & V' & D' & [B' O'] & C').
+                exists t', bl. rewrite takeN_app_more, dropN_app_more by lia.
+                replace (count - filled - lenN bs) with (count - (filled + lenN bs)) by lia.
+                rewrite <- app_assoc. unfold same_regs.
+                split; [reflexivity|]. split; [exact V'|]. split; [exact D'|].
+                split; [split; congruence | lia].
+             ++ destruct IH2 as (t' & -> & O'). exists t'. split; [reflexivity | congruence].
+  Qed.
+
+  Definition rb_tail (r : bytes * N) : M bytes :=
+    bind (set_blen (snd r)) (fun _ =>
+    bind (match fst r with x :: _ => set_b0 x | [] => ret tt end) (fun _ => ret (fst r))).
+
+  Lemma read_bytes_eq n s :
+    n <> 0 ->
+    read_bytes maxdoc n s =
+    match rib_loop maxdoc (dec_fuel (s_src s)) n 0 (s_blen s) [] s with
+    | Ret r s' => rb_tail r s'
+    | Fail s' => Fail s'
+    | Stuck => Stuck
+    end.
+  Proof. intro Hn. unfold read_bytes. apply N.eqb_neq in Hn. rewrite Hn. reflexivity. Qed.
+
+  Lemma sim_set_blen_any n1 n2 s1 s2 : Rst s1 s2 -> res_rel (set_blen n1 s1) (set_blen n2 s2).
+  Proof.
+    intros (H1 & H2 & H3 & H4 & H5 & H6). simpl. split; [reflexivity|].
+    unfold Rst, wf_st in *; simpl. repeat split; tauto.
+  Qed.
+
+  (* the buffer lengths of the two runs are not related (they are in fact equal, but nothing
+     observable depends on them), so the tail is compared by hand *)
+  Lemma sim_rb_tail bs bl1 bl2 s1 s2 : Rst s1 s2 -> res_rel (rb_tail (bs, bl1) s1) (rb_tail (bs, bl2) s2).
+  Proof.
+    intro R. unfold rb_tail, bind at 1 3. cbn [fst snd].
+    pose proof (sim_set_blen_any bl1 bl2 s1 s2 R) as S.
+    destruct (set_blen bl1 s1) as [u1 t1|t1|] eqn:E1, (set_blen bl2 s2) as [u2 t2|t2|] eqn:E2;
+      simpl in S; try contradiction; try discriminate.
+    destruct S as [_ R']. revert R'. apply sim_bind; [|intros; apply sim_ret].
+    destruct bs; [apply sim_ret | apply sim_set_b0].
+  Qed.
+
+  Lemma sim_read_bytes n : sim (read_bytes maxdoc n).
+  Proof.
+    intros s1 s2 R. pose proof R as (W1 & W2 & H3 & H4 & H5 & H6).
+    destruct (N.eqb_spec n 0) as [->|Hn].
+    - simpl. split; [reflexivity | exact R].
+    - rewrite !read_bytes_eq by exact Hn.
+      destruct (rib_spec (dec_fuel (s_src s1)) n 0 (s_blen s1) [] s1 W1 ltac:(unfold dec_fuel; lia)) as [_ F1].
+      destruct (rib_spec (dec_fuel (s_src s2)) n 0 (s_blen s2) [] s2 W2 ltac:(unfold dec_fuel; lia)) as [_ F2].
+      specialize (F1 ltac:(lia) ltac:(lia)). specialize (F2 ltac:(lia) ltac:(lia)).
+      rewrite <- H3, <- H5 in F2. rewrite N.sub_0_r in F1, F2.
+      destruct ((n <=? lenN (src_data (s_src s1))) && (s_cnt s1 + n <=? maxdoc)).
+      + destruct F1 as (t1 & bl1 & E1 & V1 & D1 & [B1 O1] & C1), F2 as (t2 & bl2 & E2 & V2 & D2 & [B2 O2] & C2).
+        rewrite E1, E2. apply sim_rb_tail.
+        unfold Rst. rewrite D1, D2, B1, B2, O1, O2, C1, C2, H3, H4, H5, H6. auto 10.
+      + destruct F1 as (t1 & E1 & O1), F2 as (t2 & E2 & O2). rewrite E1, E2. simpl. congruence.
+  Qed.
 End SimPrims.
 
 #[export] Hint Resolve sim_ret sim_fail sim_stuck sim_emit sim_ev sim_get_b0 sim_set_b0 sim_get_fuel
-  sim_nrd1 sim_fill : simdb.
+  sim_nrd1 sim_fill sim_read_bytes : simdb.
 
 Ltac sim_go :=
   repeat first
@@ -533,9 +667,6 @@ Section Sims.
   Lemma sim_read_type_or_eof : sim (read_type_or_eof maxdoc).
   Proof. unfold read_type_or_eof. sim_go. Qed.
 
-  Lemma sim_read_bytes n : sim (read_bytes maxdoc n).
-  Proof. apply sim_fill. Qed.
-
   Lemma sim_uleb_loop fuel : forall acc shift k, sim (uleb_loop maxdoc fuel acc shift k).
   Proof.
     induction fuel as [|f IH]; intros acc shift k; simpl; [apply sim_stuck|].
@@ -545,7 +676,7 @@ Section Sims.
   Lemma sim_uleb : sim (uleb maxdoc).
   Proof. unfold uleb. sim_go; try apply sim_uleb_loop. Qed.
 
-  Hint Resolve sim_read_u8 sim_read_type_or_eof sim_read_bytes sim_uleb : simdb.
+  Hint Resolve sim_read_u8 sim_read_type_or_eof sim_uleb : simdb.
 
   Lemma sim_small_uleb maxv : sim (small_uleb maxdoc maxv).
   Proof. unfold small_uleb. sim_go. Qed.
@@ -559,6 +690,10 @@ Section Sims.
 
   Lemma sim_read_decimal : sim (read_decimal maxdoc).
   Proof. unfold read_decimal. sim_go. Qed.
+
+  Lemma sim_deliver_time t : sim (deliver_time t).
+  Proof. unfold deliver_time. sim_go. Qed.
+  Hint Resolve sim_deliver_time : simdb.
 
   Lemma sim_read_timezone : sim (read_timezone maxdoc).
   Proof. unfold read_timezone. sim_go. Qed.
@@ -622,11 +757,11 @@ Section Sims.
   Proof.
     intros H1 H2 H3. unfold cbe_decode_src.
     replace (dec_fuel s1) with (dec_fuel s2) by (unfold dec_fuel; now rewrite H3).
-    assert (R : Rst (mkst s1 false 0 0 []) (mkst s2 false 0 0 [])).
+    assert (R : Rst (mkst s1 false 0 start_buffer 0 []) (mkst s2 false 0 start_buffer 0 [])).
     { unfold Rst, wf_st; simpl. repeat split; auto; discriminate. }
     pose proof (sim_decode_doc (dec_fuel s2) _ _ R) as S.
-    destruct (decode_doc maxdoc (dec_fuel s2) (mkst s1 false 0 0 [])) as [a t1|t1|],
-             (decode_doc maxdoc (dec_fuel s2) (mkst s2 false 0 0 [])) as [b t2|t2|];
+    destruct (decode_doc maxdoc (dec_fuel s2) (mkst s1 false 0 start_buffer 0 [])) as [a t1|t1|],
+             (decode_doc maxdoc (dec_fuel s2) (mkst s2 false 0 start_buffer 0 [])) as [b t2|t2|];
       simpl in S; try contradiction; simpl.
     - destruct S as [_ (_ & _ & _ & _ & _ & ->)]. reflexivity.
     - now rewrite S.
@@ -837,19 +972,19 @@ Section NoHang.
   Lemma nrd_total cap s :
     1 <= cap ->
     match nrd maxdoc cap s with
-    | Ret (bs, e) s' => src_data (s_src s) = bs ++ src_data (s_src s') /\ (bs = [] <-> e = true)
+    | Ret (bs, e) s' => src_data (s_src s) = bs ++ src_data (s_src s') /\ (bs = [] <-> e = true) /\ lenN bs <= cap
     | Fail _ => True
     | Stuck => False
     end.
   Proof.
     intro Hcap. unfold nrd. destruct (s_pend s).
-    - split; [reflexivity | tauto].
+    - split; [reflexivity | split; [tauto | simpl; lia]].
     - destruct (skip_zeros_spec (S (src_zeros (s_src s))) cap (s_src s) Hcap ltac:(lia))
-        as (bs & e & s' & -> & Hd & _ & Hn & _).
+        as (bs & e & s' & -> & Hd & Hl & Hn & _).
       destruct bs as [|x bs].
-      + simpl. split; [exact Hd | tauto].
+      + simpl. split; [exact Hd | split; [tauto | lia]].
       + destruct (maxdoc <? s_cnt s + lenN (x :: bs)); [exact I|]. simpl.
-        split; [exact Hd|]. split; discriminate.
+        split; [exact Hd|]. split; [split; discriminate | exact Hl].
   Qed.
 
   Lemma rd1_spec s :
@@ -860,7 +995,7 @@ Section NoHang.
     end.
   Proof.
     unfold rd1, bind. pose proof (nrd_total 1 s ltac:(lia)) as H.
-    destruct (nrd maxdoc 1 s) as [[bs e] s'|s'|]; auto. destruct H as [Hd He]. cbn [fst snd].
+    destruct (nrd maxdoc 1 s) as [[bs e] s'|s'|]; auto. destruct H as (Hd & He & _). cbn [fst snd].
     destruct bs as [|x bs].
     - simpl. unfold smu. rewrite Hd. simpl. split; [lia|].
       intros [Hx|Hx]; [discriminate|]. destruct He as [He _]. rewrite (He eq_refl) in Hx. discriminate.
@@ -884,7 +1019,7 @@ Section NoHang.
   Proof.
     induction f as [|f IH]; intros need Hn s Hs; [lia|].
     rewrite fill_loop_S. pose proof (nrd_total need s Hn) as H.
-    destruct (nrd maxdoc need s) as [[bs e] s'|s'|]; auto. destruct H as [Hd He]. cbn [fst snd].
+    destruct (nrd maxdoc need s) as [[bs e] s'|s'|]; auto. destruct H as (Hd & He & _). cbn [fst snd].
     destruct e; [exact I|].
     assert (Hb : bs <> []) by (intro E; apply He in E; discriminate).
     assert (Hlt : (smu s' < smu s)%nat).
@@ -922,8 +1057,44 @@ Section NoHang.
 
   Lemma P_read_u8 n : P n (read_u8 maxdoc).
   Proof. unfold read_u8. p_go. Qed.
+  Lemma P_rib_loop f : forall count filled blen acc,
+    filled <= blen -> P f (rib_loop maxdoc f count filled blen acc).
+  Proof.
+    induction f as [|f IH]; intros count filled blen acc Hbl s Hs; [lia|].
+    rewrite rib_loop_S. destruct (N.leb_spec count filled); [lia|].
+    destruct (rib_cap count filled blen ltac:(lia) Hbl) as (C1 & C2 & C3). cbv zeta.
+    set (blen' := if filled =? blen then grow_buffer blen count else blen) in *.
+    pose proof (nrd_total (N.min blen' count - filled) s C1) as H0.
+    destruct (nrd maxdoc (N.min blen' count - filled) s) as [[bs e] s'|s'|]; auto.
+    destruct H0 as (Hd & He & Hl). cbn [fst snd]. destruct e; [exact I|].
+    assert (Hb : bs <> []) by (intro E; apply He in E; discriminate).
+    assert (Hlt : (smu s' < smu s)%nat).
+    { unfold smu. rewrite Hd, app_length. destruct bs; [congruence|]. simpl. lia. }
+    specialize (IH count (filled + lenN bs) blen' (acc ++ bs) ltac:(lia) s' ltac:(lia)).
+    destruct (rib_loop maxdoc f count (filled + lenN bs) blen' (acc ++ bs) s'); auto. lia.
+  Qed.
+
+  Lemma P_get_blen n : P n get_blen.
+  Proof. intros s _. simpl. lia. Qed.
+  Lemma P_set_blen n k : P n (set_blen k).
+  Proof. intros s _. unfold set_blen, smu. simpl. lia. Qed.
+
+  Lemma P_rb_tail n r : P n (rb_tail r).
+  Proof.
+    unfold rb_tail. apply P_bind; [apply P_set_blen|]. intros _.
+    apply P_bind; [|intros; apply P_ret]. destruct (fst r); [apply P_ret | apply P_set_b0].
+  Qed.
+
   Lemma P_read_bytes n k : P n (read_bytes maxdoc k).
-  Proof. apply P_fill. Qed.
+  Proof.
+    intros s Hs. destruct (N.eqb_spec k 0) as [->|Hn]; [simpl; lia|].
+    rewrite read_bytes_eq by exact Hn.
+    pose proof (P_rib_loop (dec_fuel (s_src s)) k 0 (s_blen s) [] ltac:(lia) s
+                  ltac:(unfold smu, dec_fuel; lia)) as H.
+    destruct (rib_loop maxdoc (dec_fuel (s_src s)) k 0 (s_blen s) [] s) as [r s'|s'|]; auto.
+    pose proof (P_rb_tail (S (smu s')) r s' ltac:(lia)) as T.
+    destruct (rb_tail r s'); auto. lia.
+  Qed.
   Hint Resolve P_read_u8 P_read_bytes : pdb.
 
   Lemma P_uleb_loop f : forall acc shift k, P f (uleb_loop maxdoc f acc shift k).
@@ -967,6 +1138,9 @@ Section NoHang.
   Proof. unfold read_uint. p_go. Qed.
   Lemma P_read_decimal n : P n (read_decimal maxdoc).
   Proof. unfold read_decimal. p_go. Qed.
+  Lemma P_deliver_time n t : P n (deliver_time t).
+  Proof. unfold deliver_time. p_go. Qed.
+  Hint Resolve P_deliver_time : pdb.
   Lemma P_read_timezone n : P n (read_timezone maxdoc).
   Proof. unfold read_timezone. p_go. Qed.
   Hint Resolve P_read_identifier P_read_uint P_read_decimal P_read_timezone : pdb.
@@ -1040,8 +1214,8 @@ Section NoHang.
   Theorem decode_never_hangs s : snd (cbe_decode_src maxdoc s) <> SHang.
   Proof.
     unfold cbe_decode_src.
-    pose proof (decode_doc_not_stuck (mkst s false 0 0 [])) as H.
-    simpl in H. destruct (decode_doc maxdoc (dec_fuel s) (mkst s false 0 0 [])); simpl; congruence.
+    pose proof (decode_doc_not_stuck (mkst s false 0 start_buffer 0 [])) as H.
+    simpl in H. destruct (decode_doc maxdoc (dec_fuel s) (mkst s false 0 start_buffer 0 [])); simpl; congruence.
   Qed.
 End NoHang.
 
